@@ -23,5 +23,17 @@ Example C18_nonvacuous :
   flag (frun finit [FUpdate 3; FFlushOk]) = false.
 Proof. vm_compute. repeat split; reflexivity. Qed.
 
+(* the boolean model is a sound abstraction of the content-carrying one (Model/Flush.v: cst): `unsynced = false` there
+   means the file holds what the running device reads; so flag false => file = running view, for every history *)
+Theorem C18_boolean_model_abstracts_content : forall f ops k,
+  unsynced (frun finit (map cabs ops)) k = false -> file (crun_ (cinit f) ops) k = mem (crun_ (cinit f) ops) k.
+Proof. exact abstract_clean_means_equal. Qed.
+
+Theorem C18_flag_false_file_equals_running_view : forall f ops k,
+  cflag (crun_ (cinit f) ops) = false -> file (crun_ (cinit f) ops) k = cref f ops k.
+Proof. exact cflag_false_file_is_reference. Qed.
+
 Print Assumptions C18_flag_false_means_clean.
 Print Assumptions C18_invariant.
+Print Assumptions C18_boolean_model_abstracts_content.
+Print Assumptions C18_flag_false_file_equals_running_view.
